@@ -170,7 +170,9 @@ def leadWs (s : Bytes) : Nat := (unchunk ((chunks s).takeWhile (fun c => isSpace
     (but not the CR of a CRLF line end). -/
 def lexemeRange (text : Bytes) (t : Token) : Nat × Nat :=
   match t.ty with
-  | .pipe => (t.pos.off - 1, t.pos.off)
+  | .pipe =>
+    -- pinned lexer: an empty `|` token behind its character (finding pipe-position, repaired)
+    if t.pos.off == t.stop.off then (t.pos.off - 1, t.pos.off) else (t.pos.off, t.stop.off)
   | .comment =>
     let raw := sliceB text t.pos.off t.stop.off
     (t.pos.off, t.pos.off + (stripCR raw).length)
@@ -236,8 +238,9 @@ def coversOk (cls : Classes) (text : Bytes) (toks : List Token) (a : AbsTok) : B
   Each is a decidable predicate on the text and ONE lexer token (the token a semantic token was
   made from); the `_partial` theorems assume their negations. -/
 
-/-- `|` is reported at the position AFTER the character. -/
-def devPipe (t : Token) : Bool := t.ty == .pipe
+/-- `|` reported at the position AFTER the character with an empty extent (the pinned lexer;
+    repaired by the `scanPunct` fix — the current lexer never produces this shape). -/
+def devPipe (t : Token) : Bool := t.ty == .pipe && t.pos.off == t.stop.off
 
 /-- A code's value has no parentheses, its length is computed from the value. -/
 def devCode (t : Token) : Bool := t.ty == .code
